@@ -98,6 +98,35 @@ pub fn run(rec: &mut Recorder, w: &mut World, tier: &str, seed: u64) {
     }
     rec.count_n("histories:exhaustive", n_ex);
     rec.exhaustive = true;
+    // directed: automatic link building was off for a while in BOTH tenants (rules stored, links not built), then back on;
+    // other-tenant calls whose link update now fails (or succeeds) must still leave the observed tenant alone
+    let n_dir = (if tier == "thorough" { 200 } else { 30 }) * rec.budget as usize;
+    for _ in 0..n_dir {
+        rec.begin();
+        new_enforcer(rec, w, &m, "memory", &base_lines, "", false);
+        let mut descr = vec!["enable_auto_build_role_links(false)".to_string()];
+        rec.exec(w, "e.auto\tbuild\tfalse");
+        let own = g_rule(&mut rng, "d1");
+        let o1 = rec.exec(w, &MOp::Add("g".into(), "g".into(), own.clone()).line());
+        descr.push(format!("add {:?} -> {}", own, o1));
+        let mut theirs: Vec<Vec<String>> = vec![];
+        for _ in 0..1 + rng.below(3) { let od = *rng.pick(&["d2", "d3"]); let r = g_rule(&mut rng, od); let o = rec.exec(w, &MOp::Add("g".into(), "g".into(), r.clone()).line()); descr.push(format!("add {:?} -> {}", r, o)); theirs.push(r); }
+        rec.exec(w, "e.auto\tbuild\ttrue");
+        descr.push("enable_auto_build_role_links(true)".to_string());
+        let mut before = view(rec, w, "d1");
+        for _ in 0..2 + rng.below(4) {
+            let op = if !theirs.is_empty() && rng.chance(2, 3) { let r = theirs[rng.below(theirs.len())].clone();
+                match rng.below(3) { 0 => MOp::Rm("g".into(), "g".into(), r), 1 => MOp::RmM("g".into(), "g".into(), vec![r]), _ => MOp::RmF("g".into(), "g".into(), 0, vec![r[0].clone(), String::new(), r[2].clone()]) } }
+                else { let od = *rng.pick(&["d2", "d3"]); confined_op(&mut rng, od) };
+            let o = rec.exec(w, &op.line());
+            descr.push(format!("{} -> {}", op.line().replace('\t', " "), o));
+            let after = view(rec, w, "d1");
+            if after != before { rec.fail("tenant-leak", format!("view of d1 changed after a mutation confined to another tenant: {} :: {} -> {}", descr.join(" ; "), before, after)); break; }
+            before = after;
+        }
+        rec.count("histories:auto-build-toggled");
+        rec.nontrivial_case(&format!("dir|{}", descr.join("|")));
+    }
     // seeded random
     let n_hist = (if tier == "thorough" { 1500 } else { 120 }) * rec.budget as usize;
     let maxlen = if tier == "thorough" { 80 } else { 30 };
